@@ -11,7 +11,8 @@ from frequenz.sdk.timeseries.battery_pool._metric_calculator import SoCCalculato
 ID = "C18"
 LEVEL = "model_checking"
 FUNCTIONS = ["SoCCalculator.calculate", "CapacityCalculator.calculate", "ComponentMetricsData.get", "_internal._math.is_close_to_zero",
-             "frequenz.quantities Percentage/Energy constructors (third party, executed as is)"]
+             "frequenz.quantities Percentage/Energy constructors (third party, executed as is)",
+             "LatestMetricsFetcher.fetch_next (NaN dropping)", "SendOnUpdate.update_working_batteries (cache eviction)"]
 SHIMS = ["math.isclose dispatch on proxies (exact reals)", "calculators built with __new__ (calculate() reads no instance state)"]
 ASSUMPTIONS = [
     "exact reals; capacity in [0, 1e6], SoC in [-10, 110], 0 <= soc_lower <= soc_upper <= 100",
@@ -21,7 +22,7 @@ ASSUMPTIONS = [
 ]
 BOUNDS = {"quick": "<=2 batteries: every missing-metric pattern and working subset, all values symbolic; range, monotone and scale invariance with complete data for 2 and 3 batteries",
           "thorough": "3 batteries for every clause incl. all missing patterns (budgeted)"}
-OUTSIDE = "more than 3 batteries; IEEE rounding; the fetcher/SendOnUpdate caching layers"
+OUTSIDE = "more than 3 batteries; IEEE rounding; the asyncio plumbing of SendOnUpdate (only its two pure steps are driven)"
 BUDGET = {"quick": 300, "thorough": 900}
 KEYS = [M.CAPACITY, M.SOC, M.SOC_LOWER_BOUND, M.SOC_UPPER_BOUND]
 SOC = SoCCalculator.__new__(SoCCalculator)
@@ -122,6 +123,57 @@ def make_scale(n):
     return fn
 
 
+def make_pipeline(reach=False):
+    """The layers in front of the calculators: LatestBatteryMetricsFetcher.fetch_next drops NaN metrics (so they count as missing),
+    and SendOnUpdate.update_working_batteries evicts cached metrics of batteries (and their inverters) that stop working."""
+    import asyncio
+    import types
+    from harness.common import battery_data
+    from harness import fx
+    from frequenz.sdk.timeseries.battery_pool._component_metric_fetcher import LatestBatteryMetricsFetcher
+    from frequenz.sdk.timeseries.battery_pool._methods import SendOnUpdate
+
+    NAN = float("nan")
+
+    def fn(ex):
+        present = [ex.flag(f"has_{k}") for k in range(4)]
+        vals = [ex.real("cap"), ex.real("soc"), ex.real("lo"), ex.real("hi")]
+        ex.assume(z3.And(E(vals[0]) >= 0, E(vals[0]) <= 10**6, E(vals[2]) >= 0, E(vals[2]) <= E(vals[3]), E(vals[3]) <= 100, E(vals[1]) >= -10, E(vals[1]) <= 110))
+        ex.assume(z3.Or(E(vals[3]) == E(vals[2]), E(vals[3]) - E(vals[2]) >= z3.RealVal("1/1000000")))
+        msg = battery_data(9, capacity=vals[0] if present[0] else NAN, soc=vals[1] if present[1] else NAN,
+                           soc_lower_bound=vals[2] if present[2] else NAN, soc_upper_bound=vals[3] if present[3] else NAN)
+
+        class Rx:
+            async def receive(self):
+                return msg
+        f = LatestBatteryMetricsFetcher.__new__(LatestBatteryMetricsFetcher)
+        f._component_id = 9
+        f._metrics = list(KEYS)
+        f._receiver = Rx()
+        f._max_waiting_time = 5.0
+        data = fx.run_loop(f.fetch_next())
+        if reach:
+            ex.check(False, "reach")
+            return
+        for k, key in enumerate(KEYS):
+            ex.check((data.get(key) is not None) == present[k], "a NaN metric must be dropped by the fetcher (and a present one kept)")
+        out = SOC.calculate({9: data}, {9})
+        ex.check((out.value is None) == (not all(present)), "a battery with a NaN metric must not qualify for the pool SoC")
+        # cache eviction
+        s_ = SendOnUpdate.__new__(SendOnUpdate)
+        stays = ex.flag("battery19_keeps_working")
+        s_._metric_calculator = types.SimpleNamespace(batteries={9, 19})
+        s_._working_batteries = {9, 19}
+        s_._bat_inv_map = {9: frozenset({8}), 19: frozenset({18})}
+        s_._cached_metrics = {9: "b9", 8: "i8", 19: "b19", 18: "i18"}
+        s_._update_event = types.SimpleNamespace(flag=False, set=lambda: setattr(s_._update_event, "flag", True))
+        s_.update_working_batteries({19} if stays else set())
+        exp = {19: "b19", 18: "i18"} if stays else {}
+        ex.check(s_._cached_metrics == exp, "cached metrics of batteries that stopped working (and of their inverters) must be evicted, others kept")
+        ex.check(s_._working_batteries == ({19} if stays else set()) and s_._update_event.flag, "working set not updated / recalculation not triggered")
+    return fn
+
+
 def instances(tier):
     I = Instance
     kw = dict(incremental=False, validate_every=25, timeout_ms=30000)
@@ -132,6 +184,7 @@ def instances(tier):
         I("range-3", "make_range", (3,), "3 batteries complete data: range", budget_s=200, **kw),
         I("mono-2", "make_mono", (2,), "2 batteries: monotone in battery 0's SoC", budget_s=200, **kw),
         I("scale-2", "make_scale", (2,), "2 batteries: scale invariance", budget_s=200, **kw),
+        I("pipeline", "make_pipeline", (), "fetcher drops NaN metrics; SendOnUpdate evicts cached metrics of batteries that stop working", budget_s=100, **kw),
     ]
     out += [
         I("mono-3", "make_mono", (3,), "3 batteries: monotone", budget_s=600, **kw),
